@@ -5,6 +5,7 @@ import (
 	"encoding/json"
 	"errors"
 	"fmt"
+	"math"
 	"reflect"
 	"strconv"
 	"unicode/utf8"
@@ -30,6 +31,7 @@ type errT struct {
 	Code   bstr   `json:",omitempty"`
 	HasDe  bool   `json:",omitempty"`
 	Det    string `json:",omitempty"` // typed: JSON text of what Details() returns
+	BadDet int    `json:",omitempty"` // typed, HasDe: Details() returns a value encoding/json cannot encode (1..6, see badDetail)
 	Fields []fldT `json:",omitempty"` // valerr
 	Trunc  bool   `json:",omitempty"`
 }
@@ -142,10 +144,37 @@ var (
 	_ riverrors.ErrorDetails = (*uSCD)(nil)
 )
 
+// failingJSON is a value whose MarshalJSON reports an error (a lazily loaded record whose store is gone)
+type failingJSON struct{ Field string }
+
+func (failingJSON) MarshalJSON() ([]byte, error) { return nil, errors.New("record store closed") }
+
+// badDetail: what a careless Details() can return that encoding/json refuses
+func badDetail(k int) any {
+	switch k {
+	case 1:
+		return math.NaN()
+	case 2:
+		return make(chan int)
+	case 3:
+		return failingJSON{Field: "email"}
+	case 4:
+		return map[string]any{"limit": math.Inf(1), "field": "amount"}
+	case 5:
+		return []any{map[string]any{"path": "email", "message": "bad"}, func() {}}
+	default:
+		return []failingJSON{{Field: "a"}}
+	}
+}
+
 func mkTyped(e errT) error {
 	b := base{msg: string(e.Msg), st: e.St, code: string(e.Code)}
 	if e.HasDe {
-		b.det = decodeJSON(e.Det)
+		if e.BadDet > 0 {
+			b.det = badDetail(e.BadDet)
+		} else {
+			b.det = decodeJSON(e.Det)
+		}
 	}
 	idx := 0
 	if e.HasSt {
